@@ -128,7 +128,7 @@ pub fn plan_pipeline_case(check: &str, tier: Tier, seed: u64, idx: u64) -> Plan 
     let mut rng = Prng::new(derive(seed, 0xca5e_0000 ^ idx.wrapping_mul(0x9E37)));
     let gen_seed = derive(seed, 0x6e6e_0000 ^ idx);
     let (profile, mode): (Profile, SchedMode) = match check {
-        "C01" => ([Profile::Mixed, Profile::Mixed, Profile::Conflict, Profile::Lifecycle, Profile::Code][rng.below(5) as usize], SchedMode::Any),
+        "C01" => ([Profile::Mixed, Profile::Mixed, Profile::Conflict, Profile::Lifecycle, Profile::Code, Profile::Beneficiary][rng.below(6) as usize], SchedMode::Any),
         "C02" => ([Profile::Conflict, Profile::Conflict, Profile::Mixed, Profile::Beneficiary][rng.below(4) as usize], SchedMode::Any),
         "C03" => ([Profile::Invalid, Profile::Invalid, Profile::Invalid, Profile::Code][rng.below(4) as usize], SchedMode::Any),
         "C04" => ([Profile::Mixed, Profile::Conflict, Profile::Invalid, Profile::Precompile][rng.below(4) as usize], SchedMode::Any),
@@ -465,6 +465,16 @@ pub fn run_pipeline_check(check: &str, tier: Tier, seed: u64) -> i32 {
     let spec = check_spec(check);
     let runs = runs_for(&spec, tier);
     let (mut agg, mut wall, mut violations, mut known_hits, mut exit) = run_pipeline_part(check, tier, seed, runs);
+    if check == "C07" {
+        // the production beneficiary history under concurrent record / invalidate / resolve / validate
+        let comp_runs = std::env::var("VERIF_RUNS").ok().and_then(|s| s.parse().ok()).unwrap_or(if tier == Tier::Quick { 200_000u64 } else { 10_000_000 });
+        let (agg2, wall2, v2, k2, e2) = crate::components::run_component_batch("C07", tier, seed, comp_runs);
+        merge_aggregates(&mut agg, agg2);
+        wall += wall2;
+        violations += v2;
+        known_hits += k2;
+        exit = exit.max(e2);
+    }
     if check == "C10" {
         // C10 (b): concurrent cache-filling readers vs an in-order committer on the production views
         let comp_runs = std::env::var("VERIF_RUNS").ok().and_then(|s| s.parse().ok()).unwrap_or(if tier == Tier::Quick { 100_000u64 } else { 5_000_000 });
@@ -564,7 +574,7 @@ pub fn replay(path: &Path) -> i32 {
     if !file.extra["state_readers"].is_null() {
         return crate::statecomp::replay(&file, path);
     }
-    if !PIPELINE_CHECKS.contains(&file.check.as_str()) && (!file.extra["component"].is_null() || !file.extra["miri"].is_null()) {
+    if !file.extra["component"].is_null() || !file.extra["miri"].is_null() {
         return crate::components::replay(&file, path);
     }
     let (mine, harness, out) = evaluate_replay(&file, true);
